@@ -2,8 +2,8 @@ CFG = dict(
     lean_modules=["SaramaVerif.Model.ConsumerParse", "SaramaVerif.Model.ConsumerParseSpec", "SaramaVerif.Model.Txn",
                   "SaramaVerif.Lemmas.C03Core", "SaramaVerif.Lemmas.C03Resp", "SaramaVerif.Lemmas.C03Hist",
                   "SaramaVerif.Lemmas.C11Sort", "SaramaVerif.Lemmas.C11Truth", "SaramaVerif.Lemmas.C11Keeps",
-                  "SaramaVerif.Lemmas.C11Resp", "SaramaVerif.Lemmas.C11Index", "SaramaVerif.Props.C11"],
-    lean_support=["SaramaVerif.GoSem", "SaramaVerif.Model.ConsumerParseWire"],
+                  "SaramaVerif.Lemmas.C11Resp", "SaramaVerif.Lemmas.C11Index", "SaramaVerif.Props.C11", "SaramaVerif.Bridge.C11"],
+    lean_support=["SaramaVerif.GoSem", "SaramaVerif.Model.ConsumerParseWire", "SaramaVerif.Gen.C11"],
     model="C11",
     overlay=["c03"],
     required_theorems=["Props.C11.read_committed_exact", "Props.C11.read_committed_exact_perm",
@@ -13,7 +13,8 @@ CFG = dict(
                        "Props.C11.read_uncommitted_all_data", "Props.C11.pid_reuse_after_abort",
                        "Lemmas.C11.consume_spec", "Lemmas.C11.mem_sortAborted", "Lemmas.C11.index_agrees",
                        "Lemmas.C11.nextMarker_nextAbort", "Lemmas.C11.keeps_truth", "Lemmas.C11.resp_rc",
-                       "Lemmas.C11.brokerIndex_faithful", "Lemmas.C03.parse_eq_walk", "Lemmas.C03.resp_core"],
+                       "Lemmas.C11.brokerIndex_faithful", "Lemmas.C03.parse_eq_walk", "Lemmas.C03.resp_core",
+                       "Bridge.C11.fetchLadder_eq", "Bridge.C11.isolation_level_is_sent"],
     n={"quick": 400, "thorough": 8000, "search": 800},
     thorough_seeds=4,
     level="proof",
@@ -21,6 +22,7 @@ CFG = dict(
         "faithful broker as in C03 (FaithfulData) and a faithful aborted-transaction index (FaithfulIndex): it lists (producer id, first offset) of every aborted transaction of the log not finished before the asked offset and beginning at or below the end of the returned data; order, duplicates and additional later transactions are unconstrained; such an index exists for every log and fetch (theorem faithful_index_exists / brokerIndex_faithful)",
         "well-formed transactional log: LogWF plus BaseWF (a batch's base offset lies above every earlier batch's last offset and not above its own)",
         "the returned data contains no batch emptied by compaction and control batches carry a readable control record (hypotheses of FaithfulTxnData)",
+        "the broker answers according to the isolation level carried by the FetchRequest; that the request carries the configured level for every request version v4+ is a bridge obligation (fetchLadder_eq / isolation_level_is_sent, regenerated from fetchNewMessages) and is exercised end-to-end against a request-faithful broker",
         "ground truth: a transactional data batch is hidden under ReadCommitted iff the first control batch of its producer after it in the log is an abort marker (undecided transactions count as visible; a faithful broker does not serve them to read-committed fetches)",
         "Fetch.Max guard and int64 non-overflow as in C03; goroutine pipeline observed end-to-end only"],
     trusted_base=[],
@@ -33,9 +35,13 @@ CFG["manifest"] = dict(
          "record is delivered and the next offset lies beyond every record of the response, markers included (control_never_delivered_but_advances); with ReadUncommitted all data "
          "records are delivered whatever the transaction outcome (read_uncommitted_all_data). The abort filter is proved correct via an invariant of the sorted index / aborted-id set "
          "(consume_spec, JInv) and the agreement of a faithful index with the log's ground truth (index_agrees). "
+         "The request side: the version ladder of fetchNewMessages (request version, MaxBytes, Isolation, SessionID/Epoch, RackID per Config.Version) is re-translated from /repo on every "
+         "run and proved equal to the expected table (the configured isolation level is sent with every request version v4+). "
          "Tie: shared parse model, bridge obligations of C03; the abort-filter loop (sort, break, map add / delete, continue) is tied by differential execution: generated "
          "transactional logs, fetch boundaries at every position, shuffled / loose indexes, real FetchResponse encode -> decode -> parseResponse vs the compiled model, property oracle "
-         "with the generator's ground truth, end-to-end stream against MockBroker.",
+         "with the generator's ground truth, end-to-end stream (real Consumer) against a MockBroker that is faithful to the REQUEST: read-committed requests get "
+         "data below the last stable offset plus the aborted index, read-uncommitted requests get data up to the high watermark and no index; every Kafka version 0.11-2.8 "
+         "(fetch v4/v7/v10/v11) x both isolation levels, logs with committed, aborted and still open transactions.",
     note="Trusted: Lean kernel; harness/line protocol; translator + GoSem for the shared bridge (C03). Modelled not verified: broker behaviour (FaithfulData, FaithfulIndex), Go's "
          "unstable sort.Slice (the model sorts stably; the theorems hold for every order of the index, equal first offsets are consumed in the same step). Not modelled: goroutines.",
     technique="Lean 4 proof (invariants over the response walk, relational ground truth, omega) + differential correspondence + end-to-end observation",
